@@ -7,6 +7,7 @@ pub const BUILD: &str = "simd";
 #[cfg(debug_assertions)]
 pub const BUILD: &str = "dbg";
 
+mod cabi;
 mod chaos;
 mod crash;
 mod dec;
@@ -34,6 +35,7 @@ fn registry() -> Vec<CheckDef> {
     v.extend(props_dec::defs());
     v.extend(props_pipe::defs());
     v.extend(props_proto::defs());
+    v.extend(cabi::defs());
     v.extend(chaos::defs());
     v.extend(crash::defs());
     v.extend(reuse::defs());
